@@ -57,6 +57,10 @@ func (s *Scripted) Run(resolver graphql.UnitResolver, units ...*graphql.WorkUnit
 	}
 }
 
+// ExecDeadline: how long one Parse / PrepareQuery / Execute may take before it is reported as hanging
+// (cases normally take milliseconds).
+var ExecDeadline = 30 * time.Second
+
 // ---- execution ----
 
 // Observed is what Execute returned, canonicalised.
@@ -324,8 +328,8 @@ func execOpt(b *Built, text string, vars map[string]interface{}, sched graphql.W
 	select {
 	case o := <-done:
 		return o
-	case <-time.After(20 * time.Second):
-		return Observed{Stage: "harness", Class: "timeout"}
+	case <-time.After(ExecDeadline):
+		return Observed{Stage: "harness", Class: "timeout", Text: "Execute did not return within " + ExecDeadline.String()}
 	}
 }
 
